@@ -56,7 +56,9 @@ def bus_history(ctx, simpy, uros, msgs, rng, k):
     ntop = int(rng.integers(2, 8))
     topics = ["t%d" % i for i in range(ntop)]
     ttype = {t: str(rng.choice(list(types))) for t in topics}
-    pubs = {t: uros.Publisher(core, t, types[ttype[t]]) for t in topics}
+    # construction order is part of the schedule: some publishers are created only after their topic's subscribers
+    late_pub = [t for t in topics if rng.random() < 0.35]
+    pubs = {t: uros.Publisher(core, t, types[ttype[t]]) for t in topics if t not in late_pub}
     # nesting: callback of a subscriber on topic a publishes on topic b (b > a: acyclic), b has no own process
     nested = {}
     free = list(topics)
@@ -117,6 +119,11 @@ def bus_history(ctx, simpy, uros, msgs, rng, k):
             add_sub(t, ttype[t])
     subs_of["ghost"] = []
     add_sub("ghost", "Imu")  # subscription to a topic nobody publishes
+    for t in late_pub:
+        pubs[t] = uros.Publisher(core, t, types[ttype[t]])
+    for t in topics:  # and some subscribers join after every publisher exists
+        if rng.random() < 0.3:
+            add_sub(t, ttype[t])
 
     # parameter-following nodes
     nodes = []
@@ -189,7 +196,8 @@ def bus_history(ctx, simpy, uros, msgs, rng, k):
             core.run(until=tf)
     except Exception as e:
         exc = "%s: %s" % (type(e).__name__, str(e)[:200])
-    case = {"topics": ttype, "subscribers": {t: len(v) for t, v in subs_of.items()}, "nested": nested, "periods": periods, "tf": tf}
+    case = {"topics": ttype, "subscribers": {t: len(v) for t, v in subs_of.items()}, "nested": nested, "periods": periods, "tf": tf,
+            "publishers_created_after_subscribers": late_pub}
     ctx.check("run_completes", "core.run", exc is None, {"case": case, "exception": exc})
     ctx.check("graph_locked_after_logger", "Publisher", locked_ok, {"case": case})
     if exc is not None:
